@@ -5,6 +5,7 @@ CONSTANTS
   OpPairs <- MCPairs
   OpLists <- MCLists
   Depth = 4
+  WithInsL = FALSE
   Emit = TRUE
   FixedRemove = TRUE
 INVARIANTS AlgoIsSpec ListIsMap EntriesNonEmpty LowerKeyed CreateMeaning Symmetric Leaf
